@@ -78,6 +78,16 @@ theorem unfixed_asserts {n : Nat} (G : Graph n) (hG : G.ok) (k a b : Fin n) (r :
   have h2 := (tr G hG false b (tr G hG false k (s.put a)).1).2.1 k h1
   simp [St.addLiteral, h2]
 
+/-- memoisation: a pair that has its literal is not translated again (nothing is written, the state is unchanged) -/
+theorem translate_memo {n : Nat} (G : Graph n) (hG : G.ok) (fixed : Bool) (k : Fin n) (s : St n) (h : s.set k = true) :
+    (tr G hG fixed k s).1 = s := by
+  rw [tr]; simp [h]
+
+/-- … in particular translating a pair twice is translating it once -/
+theorem translate_idempotent {n : Nat} (G : Graph n) (hG : G.ok) (fixed : Bool) (k : Fin n) (s : St n) :
+    (tr G hG fixed k (tr G hG fixed k s).1).1 = (tr G hG fixed k s).1 :=
+  translate_memo G hG fixed k _ (tr G hG fixed k s).2.2.1
+
 /-- the smallest cycle meets the hypotheses of both theorems -/
 example : cyc.ok ∧ cyc.rechecks ∧ cyc.kind ⟨0, by omega⟩ = .op true ⟨1, by omega⟩ ⟨2, by omega⟩ ∧
     cyc.kind ⟨1, by omega⟩ = .early ⟨0, by omega⟩ :=
